@@ -24,6 +24,12 @@ CHECKS = {
         text='Theorems for every history, reference and level set: the level-crossing model reports, at each requested level no reversal touches, exactly the upward (level >= ref) or downward (level < ref) crossings of the reversal polyline, only requested levels with positive counts, events segment by segment; the peak-count model lists exactly the local maxima >= ref and minima < ref of the de-plateaued history in time order and its table is their histogram. Models tied to /repo/src by exact correspondence (default and user level sets); the same predicates run on the implementation output. Strict time order inside one falling segment is a recorded known finding.',
         note='Trusted: Lean kernel + standard axioms; hand-written models (np.searchsorted windows modelled as filters over the sorted distinct level list; default grid floor(min)..ceil(max) modelled by floor division on the grid) tied by sampled exact correspondence; dyadic-grid arithmetic stands for binary64.',
         ref='§5 C05'),
+    'C19': dict(
+        engine='list',
+        technique='Lean 4 proof (induction over the filter loops; integer division facts for rounding and binning) + exact model/implementation correspondence',
+        text='Theorems for every series, gate, resolution and bin: the peak-valley filter returns the strict turning points (plus ends), a strictly alternating subsequence, is idempotent (modulo ends for keepEnds=False) and keeps the global extremes; the hysteresis filter keeps the first point and last value and drops only points strictly inside the gate of the last kept point; digitisation gives the nearest multiple with ties to even, is idempotent and monotone; aggregation conserves the total and returns sorted distinct multiples of the bin within half a bin of each non-negative value. All four models tied to /repo/src by exact correspondence; the predicates also run on the implementation output.',
+        note='Trusted: Lean kernel + standard axioms; hand-written models (np.rint / int() modelled by integer division on the common grid; resolution, gate and bin restricted to grid values) tied by sampled exact correspondence; the executable gate predicate embedOK is the DP counterpart of the inductive relation Kept used in the theorem (not proved equivalent).',
+        ref='§5 C19'),
 }
 
 NOT_YET = {}
